@@ -26,7 +26,7 @@ F4_CELLS = [0.0, -0.0, float(_f4(0.1)), float(_f4(1) / _f4(3)), float(_f4(-1.5e-
 F8_CELLS = [0.0, -0.0, 0.1, 1.0 / 3.0, -1.5e-7, float(2 ** 53 + 1), 5e-324, float(np.finfo(np.float64).tiny),
             float(np.finfo(np.float64).max), float('nan'), float('inf'), float('-inf')]
 STR_CELLS = ['a', '', 'a b', 'a\tb', '#', 'a#b', 'a;b', 'a{b}c', '}', ' lead', 'trail ', 'x\\y', "it's", 'a{{}}b',
-             'a\x0cb', 'a\x0bb', 'a\x1cb', 'end;', ';']      # form feed, vertical tab, file separator: white space for str.splitlines()
+             'a\x0cb', 'a\x0bb', 'a\x1cb', 'end;', ';', 'a{}b', 'a{ }b', 'x{']      # form feed, vertical tab, file separator: white space for str.splitlines()
 STR_ARRAY_CELLS = [s for s in STR_CELLS if '}' not in s]
 
 LONGW = 64
